@@ -123,7 +123,13 @@ def run_controls():
             ('mask-weight', sweeps.mask_as_weight, 'MASK-WEIGHT', 'rows selected for the group', 'ctl2.group_means_by_weights', 'ctl2.group_means_by_selection'),
             ('tri', sweeps.triangular_solve, 'TRI', 'triangular by construction', 'ctl2.ldl_factor_as_triangular', 'ctl2.cholesky_factor_as_triangular'),
             ('half-filled', lambda c, o_, p: half_filled_lookup(c, o_, p, sweeps._in_scope), 'HALF-FILLED', 'uses ascending indices only',
-             'ctl2.half_filled_unordered', 'ctl2.half_filled_sorted')):
+             'ctl2.half_filled_unordered', 'ctl2.half_filled_sorted'),
+            ('lossy-guard', sweeps.lossy_guard, 'LOSSY-GUARD', 'is only discarded on a test that looks at all of it', 'ctl2.discard_on_diagonal_only',
+             'ctl2.discard_on_whole_test'),
+            ('stale-default', sweeps.stale_default, 'STALE-DEFAULT', 'says whether the', 'ctl2.flag_before_default', 'ctl2.flag_after_default'),
+            ('name-key', sweeps.name_keyed_memo, 'NAME-KEY', 'has one entry per item', 'ctl2.memo_by_name', 'ctl2.memo_by_position'),
+            ('late-bind', sweeps.late_binding, 'LATE-BIND', 'does not outlive the iteration', 'ctl2.closures_called_after_loop',
+             'ctl2.closures_called_in_loop')):
         o = Obligations('CTL')
         fn(ctx, o, ['ctl2.'])
         n += 2
